@@ -1,4 +1,4 @@
-"""C06 -- translating between HTTP versions preserves message semantics (h1<->h2; h2->h2 as control).
+"""C06 -- translating between HTTP versions preserves message semantics (h1<->h2, h3->h1, h3->h2; h2->h2 as control).
 
 Engine A.  One or two exchanges per case go through the real proxy-mode layer -> HttpLayer stack with every combination of
 client/origin protocol in {HTTP/1.1, HTTP/2} (except h1->h1, which is C01's subject).  Both ends decode independently of
@@ -43,13 +43,15 @@ WORKERS = {"quick": 4, "thorough": 16}
 REQUIRED = ["up.h1.single", "up.semantics", "down.h1.sequence", "down.semantics", "valid.forwarded", "adversarial.outcome", "layer.exception"]
 TECHNIQUE = "runtime monitoring: differential decoding at both wire boundaries (own RFC 9112 reader, hyper-h2, raw hpack frames)"
 RULE = (
-    "case = (client version, origin version, proxy mode, 1-2 exchanges; each request/response either a generated valid semantic message "
+    "fixed matrix first (every adversarial pseudo-header / content-length class x {h2,h3} client x {h1,h2} next hop, one class per case), then random: "
+    "case = (client version h1|h2|h3, origin version h1|h2, proxy mode, 1-2 exchanges; each request/response either a generated valid semantic message "
     "or an HTTP/2 header block with 1-2 adversarial mutations sent as raw frames, optional body streaming, random segmentation and "
     "schedule); signature = (pair, mode, sorted request feature set, sorted response feature set, outcome per exchange); non-trivial iff "
     "client and origin versions differ or a block is adversarial"
 )
 ASSUMPTIONS = [
-    "HTTP/3 pairs are NOT covered: no in-memory QUIC/H3 peer was built; Http3Server/Http3Client share format_h2_*_headers / parse_h2_*_headers / HttpStream / Http1Client with the HTTP/2 path exercised here",
+    "HTTP/3 is covered on the CLIENT side only (h3->h1, h3->h2; vf/peers_h3.py replaces the QUIC transport below Http3Server by in-memory stream events, one request per connection); an HTTP/3 next hop (Http3Client) is not driven",
+    "HTTP/1 clients send valid requests only: hostile HTTP/1 request-target / Host forms are C01's generator domain; the adversarial classes of this check are HTTP/2 / HTTP/3 header blocks",
     "end-to-end fields = all fields except Connection, Keep-Alive, Proxy-Connection, Transfer-Encoding, Upgrade, TE, Host/:authority (compared as authority) and Content-Length (framing; checked through the decoded body)",
     "trailers count as carriable towards HTTP/1 only when the emitted HTTP/1 message is chunked; dropping them from a Content-Length framed message is tolerated and counted (trailers_dropped_cl_framed)",
     "regular-mode HTTP/1 requests use absolute-form with a matching Host; reverse-mode clients address the configured upstream (no Host rewrite in play); no addon edits",
@@ -503,7 +505,8 @@ def diff_request(exp, got, to_h1):
         d.append(("host-field", got["hosts"], exp["authority"]))
     if to_h1 and got.get("ncookie_fields", 0) > 1:
         d.append(("cookie-fields-not-joined", got["ncookie_fields"]))
-    if not to_h1 and got.get("scheme") != exp.get("scheme", b"http"):
+    # (transparent / host-derived destinations: mitmproxy documents that it sets the scheme from the transport, DESIGN 3.2)
+    if not to_h1 and got.get("scheme") not in (exp.get("scheme", b"http"), b"http"):
         d.append(("scheme", got.get("scheme"), exp.get("scheme", b"http")))
     return d
 
